@@ -2,6 +2,7 @@ import ZV.Model.C11
 import ZV.Proofs.C10Inv
 import ZV.Proofs.C11
 import ZV.Proofs.C11Async
+import ZV.Proofs.C11Ext
 import ZV.Proofs.C10
 /-!
   C11 — `WalkChains` on a certificate returns each path that starts at that certificate,
@@ -479,6 +480,150 @@ theorem history_reachable (V : Ver) (evs : List Ev) (obs : List (Graph × Option
     ∀ x ∈ obs, ∀ chs, x.2 = some chs →
       ∃ c, chs = walkChains V x.1 c ∧ (∀ ch, ch ∈ chs ↔ Paths V x.1 c ch) ∧ chs.Nodup :=
   fun x hx => (history_inv V evs Graph.empty obs (inv_empty V) h x hx).2
+
+
+/-! ### 9. T1: the constants of `verifier/walk.go` (generated from the source on every run)
+
+    `ZV.C11.Gen.*` is rewritten by `go/extract/c11` from the working tree; editing the constant, the channel
+    default or a guard of `continueWalking` / `canAddToChain` / `WalkChainsAsync` in zcrypto breaks a theorem here. -/
+
+theorem maxIntermediateCount_source : maxIntermediateCount = Gen.maxIntermediateCount := by decide
+theorem chanCap_source : chanCap 0 = Gen.defaultChannelSize ∧ Gen.channelSizeGuard = "opt.ChannelSize<=0" := by decide
+theorem walk_guards_source :
+    Gen.walkGuards = ["lastEdge.root", "current==nil", "len(soFar)>=maxIntermediateCount", "targetNode!=nil",
+      "soFar.SubjectAndKeyInChain(targetNode.SubjectAndKey)", "edge.root",
+      "canAddToChain(edge.Certificate,certType,soFar)!=nil"] := by decide
+theorem canAdd_guards_source :
+    Gen.canAddGuards = ["certType==x509.CertificateTypeIntermediate&&(!c.BasicConstraintsValid||!c.IsCA)",
+      "c.BasicConstraintsValid&&c.MaxPathLen>=0", "numIntermediates>c.MaxPathLen"] := by decide
+theorem async_guards_source :
+    Gen.asyncGuards = ["opt.ChannelSize<=0", "start==nil",
+      "x509.CheckSignatureFromKey(identity.PublicKey,c.SignatureAlgorithm,c.RawTBSCertificate,c.Signature);err!=nil"] := by
+  decide
+
+/-- the length bound, over the generated constant -/
+theorem walk_len_le_source {V : Ver} {g : Graph} {c : Cert} {ch : List Cert}
+    (h : ch ∈ walkChains V g c) : ch.length ≤ Gen.maxIntermediateCount := by
+  rw [← maxIntermediateCount_source]; exact walk_len_le_max h
+
+/-! ### 10. `WalkChainsAsync` end to end: every channel size (also ≤ 0), every schedule
+
+    `walkChainsAsync V g c n before` = (capacity of the channel, flag on `c`, chains sent).  The capacity is
+    always ≥ 1 (the default replaces every `n ≤ 0`), so the delivery theorem applies for EVERY `n : Int`:
+    under every interleaving the consumer holds a prefix of `walkChains V g c`, and when nothing can move it
+    holds all of it and the channel is closed.  If the consumer abandons the channel the goroutine leaks
+    (`async_abandoned`), unless everything fits into the buffer (`async_fits`). -/
+
+theorem walkChainsAsync_delivers (V : Ver) (g : Graph) (c : Cert) (n : Int) (before : Bool)
+    (sched : List Async.Step) :
+    let o := walkChainsAsync V g c n before
+    let s := Async.run o.cap (Async.init o.chains) sched
+    1 ≤ o.cap ∧ (n ≤ 0 → o.cap = Gen.defaultChannelSize) ∧ (0 < n → (o.cap : Int) = n) ∧
+    o.chains = walkChains V g c ∧
+    (∃ t, walkChains V g c = s.received ++ t) ∧
+    (Async.terminal o.cap s → s.received = walkChains V g c ∧ s.closed = true) ∧
+    (¬ Async.terminal o.cap s → ∃ t, Async.enabled o.cap s t = true) := by
+  intro o s
+  obtain ⟨_, hpre, _, _, hterm, hlive, _⟩ := Async.async_delivers (chanCap_pos n) (walkChains V g c) sched
+  exact ⟨chanCap_pos n, chanCap_default, chanCap_given, rfl, hpre, hterm, hlive⟩
+
+/-- on every graph built by insertions: what is received at the end is exactly the permitted paths -/
+theorem walkChainsAsync_reachable (V : Ver) (ops : List Op) {g : Graph} (hr : run V Graph.empty ops = .ok g)
+    (c : Cert) (n : Int) (before : Bool) (sched : List Async.Step)
+    (hterm : Async.terminal (chanCap n) (Async.run (chanCap n) (Async.init (walkChains V g c)) sched)) :
+    (∀ ch, ch ∈ (Async.run (chanCap n) (Async.init (walkChains V g c)) sched).received ↔ Paths V g c ch) ∧
+    (Async.run (chanCap n) (Async.init (walkChains V g c)) sched).received.Nodup ∧
+    (Async.run (chanCap n) (Async.init (walkChains V g c)) sched).closed = true := by
+  obtain ⟨_, _, _, _, _, ht, _⟩ := walkChainsAsync_delivers V g c n before sched
+  obtain ⟨hrec, hcl⟩ := ht hterm
+  obtain ⟨hiff, hnd, _⟩ := walk_reachable V ops hr c
+  have hrec' : (Async.run (chanCap n) (Async.init (walkChains V g c)) sched).received = walkChains V g c := hrec
+  rw [hrec']
+  exact ⟨hiff, hnd, hcl⟩
+
+theorem async_abandoned {α : Type} {cap : Nat} (hcap : 1 ≤ cap) (items : List α) (sched : List Async.Step)
+    (h : sched.count .recv + cap < items.length) :
+    (Async.run cap (Async.init items) sched).closed = false ∧
+    (Async.run cap (Async.init items) sched).remaining ≠ [] :=
+  Async.abandoned_not_closed hcap items sched h
+
+theorem async_fits {α : Type} {cap : Nat} (items : List α) (h : items.length ≤ cap) :
+    (Async.run cap (Async.init items) (List.replicate items.length Async.Step.send ++ [Async.Step.close])).closed = true ∧
+    (Async.run cap (Async.init items) (List.replicate items.length Async.Step.send ++ [Async.Step.close])).buffer = items :=
+  Async.fits_closes_without_consumer items h
+
+example : ([Async.Step.send, .recv, .send] : List Async.Step).count .recv + 1 < [10, 20, 30].length := by decide
+example : [10, 20].length ≤ 4 := by decide
+example : Async.terminal (chanCap (-1)) (Async.run (chanCap (-1)) (Async.init (walkChains exV exG exL))
+    [.send, .close, .recv]) := by
+  intro t; cases t <;> decide
+
+/-! ### 11. `canAddToChain`, start-edge synthesis, the `ValidSignature` flag -/
+
+theorem canAdd_iff (c : Cert) (isRoot : Bool) (chain : List Cert) :
+    canAddToChain c isRoot chain = true ↔
+      (isRoot = false → c.bcValid = true ∧ c.isCA = true) ∧
+      (c.bcValid = true → 0 ≤ c.maxPathLen → (chain.length : Int) - 1 ≤ c.maxPathLen) :=
+  canAddToChain_iff c isRoot chain
+
+theorem canAdd_eq_reason (c : Cert) (isRoot : Bool) (chain : List Cert) :
+    canAddToChain c isRoot chain = (canAddReason c isRoot chain.length == 0) :=
+  canAddToChain_eq_reason c isRoot chain
+
+/-- the start edge: the stored edge if there is one; otherwise a fresh non-root edge whose issuer is the FIRST
+    node with the issuer name that verifies the certificate (all earlier nodes fail), or none -/
+theorem startEdge_spec (V : Ver) (g : Graph) (c : Cert) :
+    (∀ e, findEdge g.edges c.fp = some e → startEdge V g c = e) ∧
+    (findEdge g.edges c.fp = none →
+      (startEdge V g c).cert = c ∧ (startEdge V g c).root = false ∧ (startEdge V g c).child = c.sk ∧
+      (∀ k, (startEdge V g c).issuer = some k →
+        k.1 = c.iss ∧ V k c.fp = true ∧ ∃ n pre post, n.key = k ∧ g.nodes = pre ++ n :: post ∧
+          ∀ m ∈ pre, ¬ (m.key.1 = c.iss ∧ V m.key c.fp = true)) ∧
+      ((startEdge V g c).issuer = none →
+        (∀ m ∈ g.nodes, ¬ (m.key.1 = c.iss ∧ V m.key c.fp = true)) ∧ walkChains V g c = [])) := by
+  refine ⟨fun e h => startEdge_in_graph h, fun he => ?_⟩
+  rw [startEdge_synth he]
+  refine ⟨rfl, rfl, rfl, ?_, ?_⟩
+  · intro k hk
+    cases hs : searchIssuer V g.nodes c.iss c.fp with
+    | none => simp [hs] at hk
+    | some n =>
+      simp only [hs, Option.map_some, Option.some.injEq] at hk
+      obtain ⟨h1, h2, pre, post, hd, hall⟩ := searchIssuer_spec hs
+      subst hk
+      exact ⟨h1, h2, n, pre, post, rfl, hd, hall⟩
+  · intro hk
+    cases hs : searchIssuer V g.nodes c.iss c.fp with
+    | some n => simp [hs] at hk
+    | none => exact ⟨searchIssuer_none hs, walkChains_no_issuer he hs⟩
+
+/-- the synthesized start edge is a local value: the walk is a function of the graph that returns no graph
+    (`history_walk_cons`), and `AddCert` of the same certificate would store exactly that edge when the
+    (subject, key) node of the certificate already exists.
+    -- FULL: for EVERY certificate not in the graph (also when its node is new and the fix-up loop runs),
+    -- `walkChains V g1 c = walkChains V g c` where `addCert V g c = .ok g1`.  Not proved: it needs the walk to be
+    -- insensitive to the fix-up of dangling edges under the new node (they are all blocked by the (subject,key)
+    -- test because `c` heads the chain).  Compared on the real code as a T3 check at every `a<i>` token of a
+    -- history whose certificate is not in the graph (tag `synth-vs-insert`). -/
+theorem startEdge_is_addCert_edge_partial {V : Ver} {g g1 : Graph} {c : Cert}
+    (hne : hasEdge g.edges c.fp = false) (hnode : hasNode g.nodes c.sk = true)
+    (h : addCert V g c = .ok g1) :
+    findEdge g1.edges c.fp = some (startEdge V g c) ∧ g1.edges = g.edges ++ [startEdge V g c] :=
+  addCert_stores_startEdge_partial hne hnode h
+
+theorem validSig_iff (V : Ver) (g : Graph) (c : Cert) (before : Bool) :
+    (walkChainsAsync V g c 0 before).validSig = true ↔
+      before = true ∨ (findEdge g.edges c.fp).isSome = true ∨
+        ∃ n ∈ g.nodes, n.key.1 = c.iss ∧ V n.key c.fp = true :=
+  validSigAfter_iff V g c before
+
+/-- hypotheses of `startEdge_is_addCert_edge_partial`: the cross certificate `exA2` for the key (5,5) whose node
+    exists after `exA1` -/
+def exG3 : Graph := { nodes := [{ key := (5, 5), children := [], parents := [] }], edges := [], missing := [] }
+example : hasEdge exG3.edges exA2.fp = false ∧ hasNode exG3.nodes exA2.sk = true ∧
+    (match addCert exV2 exG3 exA2 with | .ok _ => true | _ => false) = true := by decide
+example : findEdge exG.edges exL.fp = none ∧ (startEdge exV exG exL).issuer = some (2, 2) := by decide
+example : (walkChainsAsync exV exG exL 0 false).validSig = true ∧ (walkChainsAsync exV exG exL 7 false).cap = 7 := by decide
 
 /-! ### the hypotheses are satisfiable, the path set is inhabited
 
